@@ -259,3 +259,11 @@ _ALLOWED_OLD = "    all_variants = collections.Counter()\n    variants_by_seq = 
 V("C18", "short_form_first_claimant", "fire", [(DBPY, _ALLOWED_OLD, "    allowed = {}\n    taken = set()\n    for seq in sequences:\n        variants = _make_seq_variants(seq)\n        allowed[seq] = variants - taken\n        taken |= variants\n    return allowed\n")], rule="C18.R4")
 V("C18", "short_form_threshold_two", "fire", [(DBPY, "if all_variants[variant] <= 1)", "if all_variants[variant] <= 2)")], rule="C18.R4")
 V("C18", "twin_short_form_counter_once", "silent", [(DBPY, _ALLOWED_OLD, "    variants_by_seq = {seq: _make_seq_variants(seq) for seq in sequences}\n    claims = collections.Counter(v for vs in variants_by_seq.values() for v in vs)\n    return {seq: {v for v in vs if claims[v] < 2} for (seq, vs) in variants_by_seq.items()}\n")])
+# ---------------------------------------------------------------- C11: the two defects repaired in ac5927c / 87bf436 must be reported if they return
+CVL = "annet/rulebook/cisco/vlandb.py"
+HVL = "annet/rulebook/huawei/vlandb.py"
+V("C11", "cisco_removal_ignores_staying_rows_again", "fire", [(CVL, "    removed = old.difference(new) - kept\n", "    removed = old.difference(new)\n")], rule="C11.R1")
+V("C11", "huawei_single_reset_with_staying_line_again", "fire", [(HVL, "        elif not multi and not multi_all and not diff[Op.UNCHANGED]:", "        elif not multi and not multi_all:")], rule="C11.R2")
+V("C11", "twin_cisco_kept_subtracted_first", "silent", [(CVL, "    removed = old.difference(new) - kept\n", "    gone = old - kept\n    removed = gone.difference(new)\n")])
+V("C11", "twin_huawei_single_reset_nested_if", "silent", [(HVL, "        elif not multi and not multi_all and not diff[Op.UNCHANGED]:\n            # the bare reverse drops the whole mapping: not when another line of the same key stays\n            yield (False, rule[\"reverse\"].format(*key), None)\n            return",
+                                                      "        elif not multi and not multi_all:\n            if not diff[Op.UNCHANGED]:\n                yield (False, rule[\"reverse\"].format(*key), None)\n                return")])
